@@ -129,8 +129,9 @@ Json::Value optI(const std::optional<T>& o) {
 void runScenario(const Json::Value& sc, Json::Value& out, const std::string& top) {
   std::string fs = top + "/fs";
   int depth = sc.get("depth", 1).asInt();
-  std::string base = depth == 2 ? fs + "/w" : fs;
-  std::string rel = depth == 2 ? "w/" : "";
+  // depth 3: fs/g (grandparent, "gparent") / {w (parent, "parent"), u (its sibling, "uncle")} / siblings
+  std::string base = depth == 3 ? fs + "/g/w" : depth == 2 ? fs + "/w" : fs;
+  std::string rel = depth == 3 ? "g/w/" : depth == 2 ? "w/" : "";
   int nticks = sc.get("nticks", 1).asInt();
   const Json::Value& sibs = sc["sibs"];
   std::string plugin = sc["plugin"].asString();
@@ -188,7 +189,11 @@ void runScenario(const Json::Value& sc, Json::Value& out, const std::string& top
   auto cgroups = PluginArgParser::parseCgroup(pcc, cg);
 
   for (int t = 0; t < nticks; t++) {
-    if (depth == 2) writeTick(base, sc["parent"][std::min<int>(t, (int)sc["parent"].size() - 1)]);
+    if (depth >= 2) writeTick(base, sc["parent"][std::min<int>(t, (int)sc["parent"].size() - 1)]);
+    if (depth == 3) {
+      writeTick(fs + "/g", sc["gparent"][std::min<int>(t, (int)sc["gparent"].size() - 1)]);
+      writeTick(fs + "/g/u", sc["uncle"][std::min<int>(t, (int)sc["uncle"].size() - 1)]);
+    }
     for (const auto& s : sibs) {
       int born = s.get("born", 0).asInt();
       if (t < born) continue;
